@@ -57,6 +57,8 @@ def oracle(case: dict) -> Outcome:
     n, dt = case["n"], {"f32": torch.float32, "f64": torch.float64}[case["dtype"]]
     u = float(torch.finfo(dt).eps)
     A, lam, V = matgen.make_matrix(n, case["recipe"], dt)
+    if case.get("layout") == "col" and n > 1:
+        A = A.t().contiguous().t()  # same symmetric matrix, column-major memory layout (what .T / linalg.inv / cholesky_inverse hand back)
     Ad = A.to(D)
     an = float(Ad.norm()) if n else 0.0
     eye = torch.eye(n, dtype=D)
@@ -194,7 +196,7 @@ def _strategy(nmax: int):
         method = draw(st.sampled_from(["eigh", "qr", "qr", "qr"]))
         recipe = draw(matgen.st_recipe(max_logk=3.0 if dtype == "f32" else 6.0, allow_neg=False, allow_zero=True))
         c: dict = {"n": (draw(st.one_of(st.integers(2, min(8, nmax)), st.integers(1, nmax))) if nmax <= 24 else draw(st.one_of(st.integers(25, nmax), st.sampled_from([32, 33, 64])))), "dtype": dtype, "method": method, "recipe": recipe,
-                   "flag_diag": draw(st.booleans())}
+                   "flag_diag": draw(st.booleans()), "layout": draw(st.sampled_from(["row", "row", "col"]))}
         if method == "qr":
             c["max_it"] = draw(st.one_of(st.integers(1, 5), st.integers(1, 50)))
             c["tol"] = draw(st.sampled_from([1e-1, 1e-3, 1e-5, 1e-8]))
